@@ -75,6 +75,7 @@ def random_system(rnd):
         word = [(rnd.randrange(len(spec)), rnd.random() < 0.5) for _ in range(rnd.randint(1, 3))]
         coef = Q(rnd.randint(1, 3), rnd.choice([1, 2, 3])) * (1 + (sympy.I * rnd.choice([1, -1, 2]) if cplx else 0))
         mons.append((coef, word))
+    mons.append((Q(rnd.randint(1, 3), rnd.choice([1, 2])), [(rnd.randrange(len(spec)), False)]))      # (a single generator: the perturbation does not vanish identically)
     def num(d, k, n):
         return NumberOperator(d[n]) if k == 'l' else Dagger(d[n]) * d[n]
     def H0f(d):
